@@ -145,13 +145,28 @@ def one_batch(ctx0, focus, rng, b, bseed, cases, descr):
                 ctx.count('glue:category_dictionary_applied')
         cfg = dict(unary_penalty=pen8 / 8.0, beta=math.exp(-theta_odd / 16.0), use_beta=use_beta, pruning_size=pruning, nbest=nbest,
                    max_step=max_step, max_length=max_length)
+        call_cfg = dict(cfg)
+        if focus == 'c16' and rng.random() < 0.35:
+            # options the caller does not name take the documented defaults - whatever earlier calls in this process asked for
+            DEFAULTS = dict(unary_penalty=0.1, beta=0.00001, use_beta=True, pruning_size=50, nbest=1, max_step=10000000, max_length=250)
+            omitted = [k_ for k_ in DEFAULTS if rng.random() < 0.4]
+            eff = {k_: (DEFAULTS[k_] if k_ in omitted else v_) for k_, v_ in cfg.items()}
+            if eff['nbest'] > 1 and getattr(unary, 'self_loops', False) and 'max_step' in omitted:
+                omitted.remove('max_step')
+                eff['max_step'] = cfg['max_step']
+            call_cfg = {k_: v_ for k_, v_ in cfg.items() if k_ not in omitted}
+            cfg = eff
+            pruning, use_beta, nbest, max_step, max_length = eff['pruning_size'], eff['use_beta'], eff['nbest'], eff['max_step'], eff['max_length']
+            theta_odd = -math.log(eff['beta']) * 16.0
+            pen8 = eff['unary_penalty'] * 8.0
+            ctx.count(f'glue:options_omitted:{len(omitted)}')
         # the worker-pool path of depccg.parsing.run (batch larger than max_chunk_size) must honour the same configuration
         pool = focus in ('c16', 'c02') and lang != 'synthetic' and len(sents) >= 2 and rng.random() < 0.5      # (closures of the synthetic tables cannot be pickled)
         extra = dict(max_chunk_size=rng.randint(1, len(sents) - 1), processes=rng.randint(1, 3)) if pool else {}
         if pool:
             ctx.count('glue:pool_path')
         try:
-            res, rec = glue.run(sents, cats, roots, binary, unary, record=not pool, **cfg, **extra)
+            res, rec = glue.run(sents, cats, roots, binary, unary, record=not pool, **call_cfg, **extra)
             if pool:
                 rec = None          # the finalizer ran in the worker processes
                 for s_ in sents:
